@@ -34,7 +34,7 @@ REQUIRED_PROBES = {"quick": ["blocked_at_break", "cause.disc", "cause.disrupt", 
                    "thorough": ["blocked_at_break", "cause.disc", "cause.disrupt", "cause.terminate", "cause.ioerror"]}
 CAUSES = ["disc", "disrupt", "terminate", "ioerror", "ioerror-persistent"]
 OPS = ["dlc_client", "dlc_server", "ldl_recv", "ldl_send", "resolve", "poll_recv", "snep_put", "snep_get",
-       "handover", "connect_noone", "accept_only", "sender_flood", "poll_acks"]
+       "handover", "connect_noone", "accept_only", "sender_flood", "poll_acks", "opener", "opener"]
 
 
 def phases(tier):
@@ -279,7 +279,59 @@ def run_one(sim, params):
             inflight[name] = "send(window)"
             if not s.send(b"\x10\x02\x00\x00\x00\x00"):
                 break
-    scripts = {"dlc_client": op_dlc_client, "dlc_server": op_dlc_server, "ldl_recv": op_ldl_recv,
+    def op_opener(llc, name="o"):
+        """keeps opening fresh sockets (implicit or explicit bind) so that some bind lands inside the termination"""
+        n = 0
+        after = 0
+        while n < 1200 and after < 6 and not ended.is_set():
+            n += 1
+            kind = sim.choose("opener.kind", 3) if state["broken"] else n % 3
+            blocking = state["broken"]
+            if blocking:
+                after += 1
+            if kind == 0:
+                s = nfc.llcp.Socket(llc, nfc.llcp.LOGICAL_DATA_LINK)
+                try:
+                    inflight[name] = "bind(new ldl)"
+                    s.bind()
+                    inflight[name] = "recvfrom(new ldl)" if blocking else "poll(new ldl)"
+                    if blocking:
+                        s.recvfrom()
+                    else:
+                        s.poll("recv", 0.004)
+                finally:
+                    s.close()
+            elif kind == 1:
+                s = nfc.llcp.Socket(llc, nfc.llcp.DATA_LINK_CONNECTION)
+                try:
+                    inflight[name] = "bind+listen(new dlc)"
+                    s.bind()
+                    s.listen(1)
+                    inflight[name] = "accept(new dlc)" if blocking else "poll(new listen)"
+                    if blocking:
+                        s.accept()
+                    else:
+                        s.poll("recv", 0.004)
+                finally:
+                    s.close()
+            else:
+                s = nfc.llcp.Socket(llc, nfc.llcp.DATA_LINK_CONNECTION)
+                try:
+                    inflight[name] = "connect(new dlc)"
+                    if blocking:
+                        s.connect(b"urn:nfc:sn:snep")
+                    else:
+                        s.bind()
+                        s.poll("send", 0.004)
+                except nfc.llcp.ConnectRefused:
+                    pass
+                finally:
+                    s.close()
+            inflight[name] = None
+            kernel.TIME.sleep(0.002)
+        sim.probe("opener.after_break" if after else "opener.before_only")
+
+    scripts = {"opener": op_opener, "dlc_client": op_dlc_client, "dlc_server": op_dlc_server, "ldl_recv": op_ldl_recv,
                "ldl_send": op_ldl_send, "resolve": op_resolve, "poll_recv": op_poll_recv, "snep_put": op_snep_put,
                "snep_get": op_snep_get, "handover": op_handover, "connect_noone": op_connect_noone,
                "accept_only": op_accept_only, "sender_flood": op_sender_flood, "poll_acks": op_poll_acks}
@@ -341,6 +393,11 @@ def run_one(sim, params):
             import nfc.llcp.tco
             import nfc.llcp.llc
             k.enable_line_preemption([nfc.llcp.tco, nfc.llcp.llc], sim.pick("line.p", [0.002, 0.01]))
+            if sim.chance("line.hot", 0.5):
+                # half of these runs concentrate the pre-emption inside the termination / shutdown / close paths
+                hp = sim.pick("line.hot.p", [0.1, 0.3])
+                k.line_hot = dict((fn, hp) for fn in ("terminate", "shutdown", "close", "remove_socket", "bind", "_bind_by_none",
+                                                      "_bind_by_addr", "_bind_by_name"))
         m = k.spawn(main, name="main")
         try:
             try:
